@@ -109,7 +109,10 @@ def run_case(case):
             except Exception:
                 sol = b.ocp.non_converged_solution
             f_sol = float(sol.value(b.ocp.objective))
-            obj0 = float(sol.stats["iterations"]["obj"][0])
+            it_ = sol.stats.get("iterations") or {}
+            if not it_.get("obj"):
+                raise KeyError("no-iterations")      # ipopt stopped before evaluating anything (e.g. too few dof)
+            obj0 = float(it_["obj"][0])
             f0, _, _, _ = view.eval(view.x0)
             res["counters"]["taps"] += 1
             res["evals"] += 1
@@ -118,6 +121,9 @@ def run_case(case):
                     "kind": "solver-cost-mismatch", "mech": "C05|solver-cost-mismatch",
                     "detail": "ipopt evaluated %.12g at the start point, sol.value(ocp.objective)=%.12g, f(x0)=%.12g" % (
                         obj0, f_sol, f0)})
+        except KeyError as e:
+            if "no-iterations" not in str(e):
+                res["violations"].append(C.exc_violation(ID, C.RockitRaised("solve_limited", e), "tap"))
         except Exception as e:  # noqa
             res["violations"].append(C.exc_violation(ID, C.RockitRaised("solve_limited", e), "tap"))
     res["nontrivial"] = res["evals"] > 0
